@@ -35,11 +35,16 @@ type Explorer struct {
 	Cache   bool
 	Stop    func() bool // polled between executions (budget / enough violations)
 	OnExec  func(x *Execution, failure string) bool // return false to stop
+	// BeforeExec is told the choice prefix about to be executed (crash side file).
+	BeforeExec func(prefix []int)
 	Stats   Stats
 	visited map[string]struct{}
 	// Shard selection: only prefixes whose top-level branch index i satisfies i%NShards==Shard
 	Shard, NShards int
-	branch         int
+	// ShardDepth is the depth of the executions whose alternatives are distributed (0 = the
+	// root's). Executions above that depth are run by every shard (and counted by shard 0 only).
+	ShardDepth int
+	branch     int
 	stopped        bool
 }
 
@@ -91,16 +96,21 @@ func (e *Explorer) explore(sc Scenario, prefix []int, depth int) {
 		e.stopped = true
 		return
 	}
-	x, failure := RunOnce(sc, prefix, e.Cache)
-	e.Stats.Executions++
-	e.Stats.Points += int64(len(x.Points))
-	if x.Deadlock {
-		e.Stats.Deadlocks++
+	if e.BeforeExec != nil {
+		e.BeforeExec(prefix)
 	}
-	if p := x.Preemptions(); p > 0 {
-		e.Stats.WithPreemption++
-		if p > e.Stats.MaxPreemptions {
-			e.Stats.MaxPreemptions = p
+	x, failure := RunOnce(sc, prefix, e.Cache)
+	if depth > e.ShardDepth || e.Shard == 0 || e.NShards <= 1 {
+		e.Stats.Executions++
+		e.Stats.Points += int64(len(x.Points))
+		if x.Deadlock {
+			e.Stats.Deadlocks++
+		}
+		if p := x.Preemptions(); p > 0 {
+			e.Stats.WithPreemption++
+			if p > e.Stats.MaxPreemptions {
+				e.Stats.MaxPreemptions = p
+			}
 		}
 	}
 	if e.OnExec != nil && !e.OnExec(x, failure) {
@@ -127,8 +137,8 @@ func (e *Explorer) explore(sc Scenario, prefix []int, depth int) {
 			if e.Bound >= 0 && cost > e.Bound {
 				continue
 			}
-			if depth == 0 {
-				// top-level branches are distributed over the shards
+			if depth == e.ShardDepth && e.NShards > 1 {
+				// branches at the sharding depth are distributed over the shards
 				mine := e.branch%e.NShards == e.Shard
 				e.branch++
 				if !mine {
